@@ -1,8 +1,135 @@
-(* C16 — version comparison is a total order that agrees with PEP 440. (theorems are added as they are proved) *)
+(* C16 -- version comparison is a total order on all strings and agrees with the ordering rules of PEP 440.
+   Statements only; the proofs are in Proofs/Pep440Facts.v. *)
 From Coq Require Import List NArith.
-From BV Require Import Lib.PyStr Model.Pep440.
+From Coq Require Import Strings.Ascii Strings.String.
+From BV Require Import Lib.PyStr Model.Pep440 Proofs.Pep440Facts.
 Import ListNotations.
+Local Open Scope N_scope.
 
-Example C16_smoke : version_re <> None.
-Proof. vm_compute. discriminate. Qed.
-Print Assumptions C16_smoke.
+Theorem C16_cmp_key_refl : forall a, cmp_key a a = Eq.
+Proof. exact cmp_key_refl. Qed.
+Print Assumptions C16_cmp_key_refl.
+
+Theorem C16_cmp_key_antisym : forall a b, cmp_key b a = CompOpp (cmp_key a b).
+Proof. exact cmp_key_antisym. Qed.
+Print Assumptions C16_cmp_key_antisym.
+
+Theorem C16_cmp_key_eq_iff : forall a b, cmp_key a b = Eq <-> a = b.
+Proof. exact cmp_key_eq_iff. Qed.
+Print Assumptions C16_cmp_key_eq_iff.
+
+Theorem C16_cmp_key_trans_lt : forall a b c, cmp_key a b = Lt -> cmp_key b c = Lt -> cmp_key a c = Lt.
+Proof. exact cmp_key_trans_lt. Qed.
+Print Assumptions C16_cmp_key_trans_lt.
+
+Theorem C16_key_le_refl : forall a, key_le a a = true.
+Proof. exact key_le_refl. Qed.
+Print Assumptions C16_key_le_refl.
+
+Theorem C16_key_le_trans : forall a b c, key_le a b = true -> key_le b c = true -> key_le a c = true.
+Proof. exact key_le_trans. Qed.
+Print Assumptions C16_key_le_trans.
+
+Theorem C16_key_le_total : forall a b, key_le a b = true \/ key_le b a = true.
+Proof. exact key_le_total. Qed.
+Print Assumptions C16_key_le_total.
+
+Theorem C16_key_le_antisym : forall a b, key_le a b = true -> key_le b a = true -> a = b.
+Proof. exact key_le_antisym. Qed.
+Print Assumptions C16_key_le_antisym.
+
+Theorem C16_legacy_below_pep440 : forall parts e r p po d l, cmp_key (KLegacy parts) (KVer e r p po d l) = Lt.
+Proof. exact legacy_below_pep440. Qed.
+Print Assumptions C16_legacy_below_pep440.
+
+Theorem C16_ver_le_refl : forall s, ver_le s s = true.
+Proof. exact ver_le_refl. Qed.
+Print Assumptions C16_ver_le_refl.
+
+Theorem C16_ver_le_trans : forall a b c, ver_le a b = true -> ver_le b c = true -> ver_le a c = true.
+Proof. exact ver_le_trans. Qed.
+Print Assumptions C16_ver_le_trans.
+
+Theorem C16_ver_le_total : forall a b, ver_le a b = true \/ ver_le b a = true.
+Proof. exact ver_le_total. Qed.
+Print Assumptions C16_ver_le_total.
+
+Theorem C16_ver_eq_iff_key : forall a b, (ver_le a b = true /\ ver_le b a = true) <-> version_key a = version_key b.
+Proof. exact ver_eq_iff_key. Qed.
+Print Assumptions C16_ver_eq_iff_key.
+
+Theorem C16_ver_lt_iff_not_le : forall a b, ver_lt a b = negb (ver_le b a).
+Proof. exact ver_lt_iff_not_le. Qed.
+Print Assumptions C16_ver_lt_iff_not_le.
+
+Theorem C16_non_pep440_below : forall a b, is_pep440 a = false -> is_pep440 b = true -> ver_lt a b = true.
+Proof. exact non_pep440_below. Qed.
+Print Assumptions C16_non_pep440_below.
+
+Theorem C16_pep440_suffix_chain : forall e r n1 n2 n3 n4 n5,
+  key_lt (cmpkey (base e r None None (Some (s_dev, n1)))) (cmpkey (base e r (Some (s_a, n2)) None None)) = true /\
+  key_lt (cmpkey (base e r (Some (s_a, n2)) None None)) (cmpkey (base e r (Some (s_b, n3)) None None)) = true /\
+  key_lt (cmpkey (base e r (Some (s_b, n3)) None None)) (cmpkey (base e r (Some (s_rc, n4)) None None)) = true /\
+  key_lt (cmpkey (base e r (Some (s_rc, n4)) None None)) (cmpkey (base e r None None None)) = true /\
+  key_lt (cmpkey (base e r None None None)) (cmpkey (base e r None (Some (s_post, n5)) None)) = true.
+Proof. exact pep440_suffix_chain. Qed.
+Print Assumptions C16_pep440_suffix_chain.
+
+Theorem C16_pep440_number_order : forall e r l n m, (n < m)%N ->
+  key_lt (cmpkey (base e r (Some (l, n)) None None)) (cmpkey (base e r (Some (l, m)) None None)) = true /\
+  key_lt (cmpkey (base e r None (Some (l, n)) None)) (cmpkey (base e r None (Some (l, m)) None)) = true /\
+  key_lt (cmpkey (base e r None None (Some (l, n)))) (cmpkey (base e r None None (Some (l, m)))) = true.
+Proof. exact pep440_number_order. Qed.
+Print Assumptions C16_pep440_number_order.
+
+Theorem C16_pep440_dev_below_same : forall e r pre post n,
+  key_lt (cmpkey (base e r pre post (Some (s_dev, n)))) (cmpkey (base e r pre post None)) = true.
+Proof. exact pep440_dev_below_same. Qed.
+Print Assumptions C16_pep440_dev_below_same.
+
+Theorem C16_pep440_trailing_zeros : forall e r pre post dev l,
+  cmpkey (mkpver e (r ++ [0%N]) pre post dev l) = cmpkey (mkpver e r pre post dev l).
+Proof. exact pep440_trailing_zeros. Qed.
+Print Assumptions C16_pep440_trailing_zeros.
+
+Theorem C16_pep440_epoch_dominates : forall e e' r r' p p' po po' d d' l l', (e < e')%N ->
+  key_lt (cmpkey (mkpver e r p po d l)) (cmpkey (mkpver e' r' p' po' d' l')) = true.
+Proof. exact pep440_epoch_dominates. Qed.
+Print Assumptions C16_pep440_epoch_dominates.
+
+Theorem C16_pep440_local_above_public : forall e r p po d l,
+  key_lt (cmpkey (mkpver e r p po d None)) (cmpkey (mkpver e r p po d (Some l))) = true.
+Proof. exact pep440_local_above_public. Qed.
+Print Assumptions C16_pep440_local_above_public.
+
+Theorem C16_pep440_release_order : forall e a b r r' p p' po po' d d' l l', (a < b)%N ->
+  key_lt (cmpkey (mkpver e (a :: r) p po d l)) (cmpkey (mkpver e (b :: r') p' po' d' l')) = true.
+Proof. exact pep440_release_order. Qed.
+Print Assumptions C16_pep440_release_order.
+
+(* concrete strings *)
+Definition S' (s : string) := map N_of_ascii (list_ascii_of_string s).
+
+Example C16_ex_dev_below_alpha : ver_lt (S' "1.0.dev1") (S' "1.0a1") = true.
+Proof. vm_compute. reflexivity. Qed.
+Print Assumptions C16_ex_dev_below_alpha.
+
+Example C16_ex_rc_below_final : ver_lt (S' "1.0rc1") (S' "1.0") = true.
+Proof. vm_compute. reflexivity. Qed.
+Print Assumptions C16_ex_rc_below_final.
+
+Example C16_ex_trailing_zero : version_key (S' "1.2") = version_key (S' "1.2.0").
+Proof. vm_compute. reflexivity. Qed.
+Print Assumptions C16_ex_trailing_zero.
+
+Example C16_ex_legacy_below_pep440 : ver_lt (S' "v2017q1.54321") (S' "0.0.1") = true.
+Proof. vm_compute. reflexivity. Qed.
+Print Assumptions C16_ex_legacy_below_pep440.
+
+Example C16_ex_to_pep440 : to_pep440 (S' "v201811.0007-beta") = S' "201811.7b0".
+Proof. vm_compute. reflexivity. Qed.
+Print Assumptions C16_ex_to_pep440.
+
+Example C16_ex_final_not_pep440 : is_pep440 (S' "1.0-final") = false.
+Proof. vm_compute. reflexivity. Qed.
+Print Assumptions C16_ex_final_not_pep440.
